@@ -260,12 +260,16 @@ Apply(b, m) ==
 FirstTargets(m) ==
     LET BS == Breaks(m)
     IN  {b \in BS : \A c \in BS : (c.rule = b.rule /\ c.variant = b.variant) => (b.k < c.k \/ (b.k = c.k /\ b.j <= c.j))}
-BreaksAt(d, m) == IF d = 0 THEN Breaks(m) ELSE FirstTargets(m)
+\* what may follow a mutation of rule `last` ("" = nothing applied yet): a mutation of a *different* rule
+\* (two mutations of one rule can undo each other: flipping a type twice, adding and dropping an argument)
+BreaksAfter(last, m) == IF last = "" THEN Breaks(m) ELSE {b \in FirstTargets(m) : b.rule # last}
 
 \* the meta-models reachable by exactly d mutations, with the mutations that led there: every enabled mutation
-\* of a template, then one representative target per variant
+\* of a template, then one representative target per variant of the other rules
+LastRule(applied) == IF applied = <<>> THEN "" ELSE applied[Len(applied)].rule
 RECURSIVE Level(_)
 Level(d) ==
     IF d = 0 THEN {[m |-> tm, applied |-> <<>>] : tm \in Templates}
-    ELSE UNION {{[m |-> Apply(b, c.m), applied |-> Append(c.applied, b)] : b \in BreaksAt(d - 1, c.m)} : c \in Level(d - 1)}
+    ELSE UNION {{[m |-> Apply(b, c.m), applied |-> Append(c.applied, b)] : b \in BreaksAfter(LastRule(c.applied), c.m)}
+                : c \in Level(d - 1)}
 =============================================================================
